@@ -48,31 +48,32 @@ def check(run):
 
 def resid_range(run, m):
     """`(start.unwrap_or(0)..=end).map(|j| { (self.uget(j), other.uget(j)) ... })`"""
+    import dtree
+    import re as _re
     n = 0
+    env = {lid: t for lid, t in m.tags.items()}
     for e in walk(m.body):
         if e.get('k') == 'MethodCall' and e.get('method') == 'map' and \
-                peel(e['ch'][0]).get('k') == 'Range':
-            r = peel(e['ch'][0])
-            lo, hi = peel(r['ch'][0]), peel(r['ch'][1])
-            lo_ok = (lo.get('k') == 'MethodCall' and callee_is(lo, 'Option::unwrap_or') and
-                     m.idx_tag(lo['ch'][0]) == 'OLDIDXOPT' and src(peel(lo['ch'][1])) == '0')
-            hi_ok = r['incl'] and m.idx_tag(hi) == 'END'
+                peel(e['ch'][0]).get('ty', '').startswith(('std::ops::RangeInclusive', 'core::ops::RangeInclusive',
+                                                            'std::ops::Range', 'core::ops::Range')) or \
+                e.get('k') == 'MethodCall' and e.get('method') == 'map' and peel(e['ch'][0]).get('k') == 'Range':
+            en = dtree.env_at(m.body, e, env)
+            rng = dtree.canon(e['ch'][0], en)
+            r_ok = rng == 'OLDIDXOPT.unwrap_or(0)..=END'
             cl = peel(e['ch'][1])
-            j = cl['params'][0].get('local') if cl.get('k') == 'Closure' else None
-            ugets = [x for x in walk(cl) if x.get('k') == 'MethodCall' and
-                     callee_is(x, 'Vec1View::uget')]
-            idx_ok = len(ugets) == 2 and all(peel(u['ch'][1]).get('local') == j for u in ugets) \
-                and {src(peel(u['ch'][0])) for u in ugets} == {'self', 'other'}
-            # pairwise guard
-            guards = [x for x in walk(cl) if x.get('k') == 'If']
-            g_ok = False
-            for g in guards:
-                s = src(g['ch'][0])
-                if s.count('.not_none()') == 2 and '&&' in s or ' & ' in s and s.count('.not_none()') == 2:
-                    g_ok = True
+            idx_ok = g_ok = False
+            det = ''
+            if cl.get('k') == 'Closure':
+                t = dtree.closure_table(m.body, cl, env)
+                texts = [x for cs, l, ef in t for x in list(cs) + [l] + list(ef)]
+                reads = set(_re.findall(r'(\w+)\.uget\((\w+)\)', ' ; '.join(texts)))
+                idx_ok = reads == {('self', 'a0'), ('other', 'a0')}
+                nonnull = [(cs, l) for cs, l, ef in t if l != 'NULL']
+                g_ok = bool(nonnull) and all({'VALID(self.uget(a0))', 'VALID(other.uget(a0))'} <= set(cs)
+                                             for cs, l in nonnull)
+                det = 'reads %s' % sorted(reads)
             n += 1
-            run.ob('RESID.range', m.k.fn, 'residual loop', lo_ok and hi_ok and idx_ok and g_ok,
-                   loc(e), 'range `%s` (lower %s, upper %s), reads %s, pairwise guard %s'
-                   % (src(r), 'ok' if lo_ok else 'BAD', 'ok' if hi_ok else 'BAD',
-                      'ok' if idx_ok else 'BAD', 'ok' if g_ok else 'MISSING'))
+            run.ob('RESID.range', m.k.fn, 'residual loop', r_ok and idx_ok and g_ok,
+                   loc(e), 'range `%s` (%s), reads %s, pairwise guard %s; %s'
+                   % (rng, 'ok' if r_ok else 'BAD', 'ok' if idx_ok else 'BAD', 'ok' if g_ok else 'MISSING', det))
     return n
